@@ -31,7 +31,7 @@ fn bounded_duration() -> Duration {
 }
 
 // @harness c13_basic_filter_finite
-// @props C13 C03
+// @props C13:quick C03:quick
 // @tier quick
 // @timeout 2400
 // @mem 14
@@ -43,7 +43,7 @@ fn bounded_duration() -> Duration {
 fn c13_basic_filter_finite() { basic_case(false) }
 
 // @harness c13_basic_filter_equal_event_times
-// @props C13 C03:thorough
+// @props C13:quick C03:quick
 // @tier quick
 // @timeout 2400
 // @mem 14
